@@ -77,7 +77,13 @@ func GenCtl(t *rapid.T) CaseCtl {
 			c.Steps = append(c.Steps, st)
 		case 5, 6:
 			if c.Kind == qadapt.KindSync && rapid.Bool().Draw(t, "steal") {
-				c.Steps = append(c.Steps, Step{Op: "steal", N: rapid.SampledFrom([]int{0, 2, 63, 64, 65, 100, 300, 129}).Draw(t, "nsteal")})
+				ns := rapid.SampledFrom([]int{0, 2, 63, 64, 65, 100, 300, 129, 1023, 1024, 1025, 1500, 2049, 4097}).Draw(t, "nsteal")
+				c.Steps = append(c.Steps, Step{Op: "steal", N: ns})
+				if ns >= 1000 {
+					// what a queue does with its storage after a drained burst shows at the next items: the consumers that
+					// stayed parked through the burst must still be served
+					c.Steps = append(c.Steps, Step{Op: "add"}, Step{Op: "add"})
+				}
 			} else {
 				c.Steps = append(c.Steps, Step{Op: "consume", Anyway: rapid.Bool().Draw(t, "anyway")})
 			}
@@ -320,13 +326,16 @@ func ExecCtl(c CaseCtl) *vkit.Result {
 			nSteal := 1
 			if st.N > 1 {
 				nSteal = st.N
-				if nSteal > 2000 {
+				if nSteal > 5000 {
 					res.Skip("bad-steal")
 					continue
 				}
 				res.Class("steal-burst")
 				if nSteal > 64 {
 					res.Class("steal-burst>64")
+				}
+				if nSteal >= 1024 {
+					res.Class("steal-burst>=1024")
 				}
 			}
 			base := 100000 * (i + 1)
